@@ -68,6 +68,13 @@ def post(lines, verdicts):
             if "| skipped" in ln:
                 skipped_kinds.add(k)
                 print("WARNING: C09 case `%s` was SKIPPED by the runner (host memory configuration)" % _case(ln).strip())
+    # driver lines that overflowed a hard stack limit: not-run, surfaced, capped
+    stack = [ln for ln, v in zip(lines, verdicts) if v and v.startswith("ok not-run-stack-limit")]
+    if stack:
+        print("WARNING: C09: %d boundary cases were NOT judged: the host's hard stack limit is too small for the driver "
+              "(e.g. `%s`)" % (len(stack), _case(stack[0])[:80].strip()))
+        if len(stack) > max(80, len(lines) // 300):
+            out.append(("diff", "stack", "diff tie not exercised: %d cases not judged because of the stack limit" % len(stack)))
     floors = {"Q": 7000, "E": 6000, "B": 6000, "P": 900, "S": 900, "R": 900, "A": 700, "O": 100, "M": 18, "N": 30,
               "V": 4000, "G": 25, "C": 1}
     for k, fl in floors.items():
@@ -117,8 +124,12 @@ def post(lines, verdicts):
         if comp[c] < fl:
             out.append(("diff", c, "diff tie not exercised: %d cases with compression %s, floor %d" % (comp[c], c, fl)))
     # multi-byte UTF-8 statement texts / option values (the spec parser checks [string] / [long string] validity)
-    if sum(1 for ln in lines if "c5bcc3b3c582" in _case(ln) or "e697a5e69cac" in _case(ln)) < 500:
-        out.append(("diff", "utf8", "diff tie not exercised: fewer than 500 cases with multi-byte UTF-8 strings"))
+    # (only Q / P / S / B lines: there the pattern is a statement text or a STARTUP string, i.e. on the wire as a
+    #  [long string] / [string]; the parser runs on the 1-in-8 sample of the agreeing frames, so >= 4000 such cases
+    #  give >= ~500 validated texts)
+    if sum(1 for ln in lines if ln[:2] in ("Q ", "P ", "S ", "B ")
+           and ("c5bcc3b3c582" in _case(ln) or "e697a5e69cac" in _case(ln))) < 2500:
+        out.append(("diff", "utf8", "diff tie not exercised: fewer than 2500 Q/P/S/B cases with multi-byte UTF-8 strings"))
     refused = sum(1 for ln in lines if "| err " in ln)
     if refused < 1000:
         out.append(("diff", "err", "diff tie not exercised: only %d refusals observed, floor 1000" % refused))
@@ -141,7 +152,8 @@ def _extra(lines, verdicts):
     big = 0
     for ln in lines:
         f = ln.split(" ", 3)
-        if len(f) > 1 and f[1] in comp:
+        # only the kinds whose second field is the compression setting (not `V s` rows, not M)
+        if len(f) > 1 and f[1] in comp and f[0] in "QEBPSRAO":
             comp[f[1]] += 1
         if "| err " in ln:
             refused += 1
@@ -156,6 +168,8 @@ def _extra(lines, verdicts):
             "e2e_session_frames_checked": sum(ln.count(" Q/") + ln.count(" E/2/") + ln.count(" B/c/") for ln in n if "| e2e " in ln),
             "typed_rows": len(_kind(lines, "V")),
             "typed_rows_refused": sum(1 for ln in _kind(lines, "V") if "| err row" in ln),
+            "cases_not_judged_stack_limit": sum(1 for v in verdicts if v and v.startswith("ok not-run-stack-limit")),
+            "M_cases_skipped_allocation_refused": sum(1 for ln in _kind(lines, "M") if "| skipped" in ln),
             "G_cases_skipped_for_memory": sum(1 for ln in _kind(lines, "G") if "| skipped" in ln),
             "G_cases_run": sum(1 for ln in _kind(lines, "G") if "| skipped" not in ln),
             "e2e_setup_frames_checked": sum(ln.count(" O:") + ln.count(" S/") + ln.count(" R/2/") for ln in n if "| e2e " in ln),
@@ -201,8 +215,8 @@ SPEC = {
     "assumptions": [
         "codec_ok cd (LZ4/Snappy: decompress (compress b) = b) is an explicit premise of C09_compressed; the tie validates it on every compressed case by running the real decompress on the real compressed body",
         "req_wf r (timestamp within i64, page size within i32, statement texts and STARTUP strings well-formed UTF-8: Rust type invariants) and mid_matches mid r (the parser is told whether the result-metadata-id extension is in use) are premises of C09_parse_encode / C09_compressed",
-        "bodies of 2^32 bytes or more are refused (BodyTooLong, /repo a9f519c): proved (C09_oversize, C09_body_too_long, C09_payload_too_long, C09_make_sizes, C09_lz4_sizes) and tied in every tier by the M cases (make() of never-touched zero bytes at 2^32-1 / 2^32 / 2^32+5, plain / LZ4 / Snappy, sizes only); the thorough tier adds a real 4 GiB batch body (L 4 40000000, reported as not-run with a WARNING when memory is short)",
-        "the 2^31 boundaries of statement texts, the auth token and value cells are proved (C09_int_boundary) and tied by the G cases (2^31 and 2^31+1 on never-touched zero bytes in every tier; 2^31-1 accepted in the thorough tier); the paging-state 2^31 boundary is proved on the model only",
+        "bodies of 2^32 bytes or more are refused (BodyTooLong, /repo a9f519c): proved (C09_oversize, C09_body_too_long, C09_payload_too_long, C09_make_sizes, C09_lz4_sizes) and tied in every tier by the M cases (make() of a body of calloc'ed zero bytes that are never read or written, at 2^32-1 / 2^32 / 2^32+5, plain / LZ4 / Snappy, sizes only; reported as not-run, with a WARNING, when the host refuses the mapping); the thorough tier adds a real 4 GiB batch body (L 4 40000000, reported as not-run with a WARNING when memory is short)",
+        "the 2^31 boundaries of statement texts, the auth token and value cells are proved (C09_int_boundary) and tied by the G cases (2^31 and 2^31+1 in every tier, on calloc'ed zero bytes that are never read or written -- the texts are made with from_utf8_unchecked; 2^31-1 accepted, one 2 GiB copy each, in the thorough tier); the paging-state 2^31 boundary is proved on the model only",
         "typed rows: the value codec is a parameter of the row theorems; the tie instantiates it with i32 / String / Vec<u8> / Option::None / Unset at int / text / blob columns",
         "STARTUP: the HashMap iteration order is an oracle; the runner reports the order the real map iterated in and the model is run with that order (theorems hold for every order); in the e2e kind STARTUP maps and REGISTER lists are compared as sets",
         "e2e (kind N): no Session model; the extracted independent parser applied to the captured frames is compared with what the harness asked for according to the documented Session semantics (harness/src/c09_e2e.rs header)",
